@@ -285,3 +285,9 @@ def unit_test(case):
         f"lib = bibtexparser.parse_string({text!r})\n"
         "for e in lib.entries: print(e.key, [(f.key, f.value) for f in e.fields], e.parser_metadata.get('ResolveStringReferences'))\n"
     )
+
+
+def ENV_SHARDS(tier):
+    """The broad, cheap families: run again in a fresh interpreter per environment (engine.run_environments)."""
+    return [s for s in shards('quick') if s[0] == "big" or s in (("first", 9), ("two_parts", 22))]
+
